@@ -36,7 +36,7 @@ def bounds(tier):
 def required_cells(tier):
     return ["alias:compiled-through-file-link", "alias:-I-through-dir-link", "alias:dot-segments-file", "alias:dot-segments-I",
             "alias:include-through-file-link", "alias:once-header-under-two-names", "alias:forced-include",
-            "link:unused-to-member", "link:to-outside", "link:to-excluded-member", "names-differing-in-case", "same-file-from-2-commands", "one-tree-per-inode", "cli:tree-links"]
+            "link:unused-to-member", "link:to-outside", "link:to-excluded-member", "names-differing-in-case", "link:extension-of-another-language", "link:to-sibling-with-root-prefix", "same-file-from-2-commands", "one-tree-per-inode", "cli:tree-links"]
 
 
 def dots(rng, rel):
@@ -116,6 +116,10 @@ def decorate(rng, case):
         outside_files["@out/far.h"] = "int far;\n"
         links["src/outside_link.h"] = "@out/far.h"
         cells.add("link:to-outside")
+    if rng.random() < 0.5:
+        # the target lies in a sibling of the root whose name merely starts with the root's name (root-build/)
+        links["src/sibling_link.h"] = "@sib/version.h"
+        cells.add("link:to-sibling-with-root-prefix")
     # an excluded header that has a second name (file symlink) which the pattern does not match: the physical file is
     # excluded, so neither name is a member
     hdrs = [r for r in members if r.endswith(".h") and os.path.basename(r) != "pre.h"]
@@ -126,12 +130,31 @@ def decorate(rng, case):
         cells.add("link:to-excluded-member")
     if any(r.endswith("/CaseP.h") for r in case["files"]):
         cells.add("names-differing-in-case")
+    # second names whose extension belongs to ANOTHER language than the file they point to: the physical file keeps
+    # its own language whichever name the analysis meets first
+    for pre in ("a_", "m_", "zz_"):
+        links[f"src/{pre}fort_alias.inc"] = "lang_fort.f90"
+        links[f"src/{pre}cmt_alias.f90"] = "lang_cmt.c"
+    cells.add("link:extension-of-another-language")
     files = [os.path.normpath(t["file"]) for t in case["tus"]]
     if len(set(files)) < len(files):
         cells.add("same-file-from-2-commands")
     ac["links"] = links
     ac["outside_files"] = outside_files
     return ac, cells
+
+
+LANG_FILES = {
+    "src/lang_fort.f90": "program p\n! a comment, isn't code\n  x = 1 ! trailing\n  s = 'a' // 'b'\n/* not a comment in Fortran */\nend program p\n",
+    "src/lang_cmt.c": "int a; // c\n/* block\n   comment */\n! not_a_comment;\n// only comment\nint b;\n",
+}
+
+
+def write_lang_files(base):
+    root, out = forest.paths(base)
+    for rel, text in LANG_FILES.items():
+        with open(os.path.join(root, rel), "w") as f:
+            f.write(text)
 
 
 def materialize_links(ac, base):
@@ -144,7 +167,13 @@ def materialize_links(ac, base):
         os.makedirs(os.path.dirname(p), exist_ok=True)
         if os.path.lexists(p):
             continue
-        if t.startswith("@out/"):
+        if t.startswith("@sib/"):
+            sib = os.path.realpath(root) + "-build"
+            os.makedirs(sib, exist_ok=True)
+            with open(os.path.join(sib, t[5:]), "w") as f:
+                f.write("int version;\n")
+            os.symlink(os.path.join(sib, t[5:]), p)
+        elif t.startswith("@out/"):
             os.symlink(forest.abspath(root, out, t), p)
         else:
             os.symlink(t, p)
@@ -178,8 +207,10 @@ def check_case(ctx, case, base, cls, do_cli=False):
     if not ok:
         acc.excluded("gcc-diagnostic", cls=cls)
         return
+    write_lang_files(tb)
     ac, cells = decorate(rng, case)
     aroot, arend = forest.materialize(ac, ab)
+    write_lang_files(ab)
     materialize_links(ac, ab)
     # the aliased tree must still be fine for gcc and give the same live markers per TU (premise of the relation)
     ok2, per_tu2, _ = forest.gcc_expect(ac, ab, arend)
@@ -226,6 +257,9 @@ def check_case(ctx, case, base, cls, do_cli=False):
         listed = {os.path.relpath(p, os.path.realpath(aroot)) for p in cb_a}
         if "src/outside_link.h" in listed:
             problems.append({"kind": "link-to-outside-enumerated"})
+        if "src/sibling_link.h" in ac["links"] and ("src/sibling_link.h" in listed or os.path.join(aroot, "src/sibling_link.h") in cb_a
+                                                    or os.path.realpath(aroot) + "-build/version.h" in cb_a):
+            problems.append({"kind": "link into a sibling directory (root-build/) is part of the code base"})
         for x in excl:
             xl = "src/xl_" + os.path.basename(x)
             for name in (x[1:], xl):
